@@ -605,3 +605,24 @@ pub fn one_overlap_config() -> impl Strategy<Value = Config> {
         Config { flop, ranges, scope: None }
     })
 }
+
+/// "blocker" range: `size` combos that all contain `card` (max 51), seeded choice of the partners
+pub fn holding_range(card: u8, size: usize, seed: u64, weights: bool) -> RangeSpec {
+    let mut others: Vec<u8> = (0..52u8).filter(|c| *c != card).collect();
+    let mut x = mix64(seed);
+    for i in (1..others.len()).rev() {
+        x = mix64(x);
+        others.swap(i, (x % (i as u64 + 1)) as usize);
+    }
+    others.truncate(size.clamp(1, 51));
+    let mut combos: Vec<(u8, u8, f32)> = others
+        .iter()
+        .enumerate()
+        .map(|(i, o)| {
+            let p = norm_pair(card, *o);
+            (p.0, p.1, if weights && i % 3 == 1 { 0.5 } else { 1.0 })
+        })
+        .collect();
+    combos.sort_by_key(|c| (c.0, c.1));
+    RangeSpec { combos }
+}
